@@ -8,11 +8,11 @@ INFO = {
                   "config._parse_toml", "config._set_raw_config_defaults", "config._parse_config", "config._parse_cfg_file_patterns",
                   "config._parse_current_version_default_pattern", "config._compile_file_patterns", "config.init_project_ctx"],
     "bounds": "meaning lattice: commit x tag {absent,false,true} x push {absent,false,true} x tag_scope {absent,default,global,branch} x "
-              "commit_message {absent, 2 templates} x file sets {none, 1 file, 2 entries incl. a glob} x own file listed or implicit; INI "
+              "commit_message {absent, 2 templates} x pre-commit hook {absent, existing script, missing script} x file sets {none, 1 file, 2 entries incl. a glob} x own file listed or implicit; INI "
               "spellings: 6 true / 6 false spellings, 3 quoting styles; TOML files bumpver.toml, .bumpver.toml, pyproject.toml; "
               "[pycalver] legacy sections. The lattice is finite: the solver enumerates it path by path (stated as enumeration)",
     "outside": "NOT claimed: TOML text-level behaviour (escapes, multi-line strings, inline tables) - toml.load is stubbed by contract "
-               "because the real decoder does not run on symbolic text (probe P41); hooks (need existing files); free-text messages",
+               "because the real decoder does not run on symbolic text (probe P41); free-text messages",
     "stubs": ["toml.load -> the dict the generated TOML text denotes (text/dict pairs validated against the real toml.loads on every run)",
               "in-memory file system"],
     "assumptions": [],
@@ -49,7 +49,7 @@ def obligations(tier):
     for f, leg, sp, q, fl, m, own in shards:
         obs.append(Ob(f"L1.same_meaning[setup.cfg vs {f}{' [pycalver]' if leg else ''}; spelling {sp}, quoting {q}, files {fl}, message {m}, "
                       f"own line {'listed' if own else 'implicit'}]", "c18.py", "same_meaning",
-                      {"toml_file": f, "legacy_section": leg, "fix": {"spell": sp, "quote": q, "files": fl, "msg": m, "own_listed": own}},
-                      timeout=t))
+                      {"toml_file": f, "legacy_section": leg,
+                       "fix": {"spell": sp, "quote": q, "files": fl, "msg": m, "own_listed": own, "hook": (sp + fl) % 3}}, timeout=t))
     obs.append(Ob("twin.some_config_parses", "c18.py", "twin_never_parses", {}, expect="refute", timeout=120))
     return obs
